@@ -837,6 +837,11 @@ class DocutilsRenderer(RendererProtocol):
         # create the section node
         new_section = nodes.section()
         self.add_line_and_source_path(new_section, token)
+        # create the title for this section; it is added first, so that a system message
+        # attached to the section (e.g. for a duplicate id) does not precede the title
+        title_node = nodes.title(token.children[0].content if token.children else "")
+        self.add_line_and_source_path(title_node, token)
+        new_section.append(title_node)
         self.copy_attributes(token, new_section, ("class", "id"))
         # if a top level section,
         # then add classes to set default mathjax processing to false
@@ -847,10 +852,6 @@ class DocutilsRenderer(RendererProtocol):
         # update the state of the section levels
         self.update_section_level_state(new_section, level)
 
-        # create the title for this section
-        title_node = nodes.title(token.children[0].content if token.children else "")
-        self.add_line_and_source_path(title_node, token)
-        new_section.append(title_node)
         # render the heading children into the title
         with self.current_node_context(title_node):
             self.render_children(token)
